@@ -391,6 +391,30 @@ fn gen_near_valid(rng: &mut Rng) -> String {
         }
         return s;
     }
+    if rng.chance(1, 20) {
+        // a small value behind 10-40 leading zeros: 39 and more digits in all, and still well-formed
+        let mut s = String::new();
+        if rng.chance(1, 4) {
+            s.push('-');
+        }
+        if rng.chance(1, 3) {
+            // grouped: zero groups in front of a grouped value
+            s.push_str(["0", "00", "000"][rng.usize(3)]);
+            for _ in 0..3 + rng.usize(11) {
+                s.push_str(",000");
+            }
+            s.push_str(&format!(",{:03},{:03}", rng.below(1000), rng.below(1000)));
+        } else {
+            for _ in 0..10 + rng.usize(31) {
+                s.push('0');
+            }
+            s.push_str(&format!("{}", 1 + rng.below(999_999)));
+        }
+        if rng.chance(1, 2) {
+            s.push_str(&format!(".{:02}", rng.below(100)));
+        }
+        return s;
+    }
     if rng.chance(1, 5) {
         let v = gen_boundary(rng);
         return if rng.chance(1, 6) { mutate(rng, &v) } else { v };
